@@ -287,4 +287,57 @@ theorem buildResponse_canon {y : Style} {st : State} (h : Wf y st) :
   rw [hlen]
   rfl
 
+/-! ### the whole query -/
+
+/-- parts in any order: the response is the state's -/
+theorem query_perm_expected {y : Style} {st : State} (h : Wf y st) (port retries : Nat) (arr : List Bytes)
+    (hp : arr.Perm (script y st)) :
+    (query port retries (Net.init (scriptOf arr) [])).1 = .ok (expected st) := by
+  rw [query_any_order h port retries arr hp, buildResponse_canon h]
+
+theorem drawn_parts {y : Style} {st : State} (arr : List Bytes) (harr : ∀ d ∈ arr, d ∈ script y st) :
+    ∃ dsP : List NPart, arr = dsP.map (encN y (partsOf y st).length) ∧ ∀ a ∈ dsP, a ∈ partsOf y st := by
+  induction arr with
+  | nil => exact ⟨[], rfl, fun _ h => by cases h⟩
+  | cons d t ih =>
+    have hd := harr d (by simp)
+    rw [script_eq] at hd
+    obtain ⟨a, ha, e⟩ := List.mem_map.mp hd
+    obtain ⟨tP, e2, h2⟩ := ih (fun x hx => harr x (by simp [hx]))
+    exact ⟨a :: tP, by simp [e, e2], fun b hb => by
+      rcases List.mem_cons.mp hb with rfl | hb'
+      · exact ha
+      · exact h2 b hb'⟩
+
+/-- any sequence of datagrams drawn from the parts (any order, repetitions, omissions): the
+variables sent, or an error -/
+theorem queryVars_drawn {y : Style} {st : State} (h : Wf y st) (port retries : Nat) (arr : List Bytes)
+    (harr : ∀ d ∈ arr, d ∈ script y st) :
+    (queryVars port retries (Net.init (scriptOf arr) [])).1 = .ok (canon (allPairs y st))
+    ∨ ∃ k, (queryVars port retries (Net.init (scriptOf arr) [])).1 = .err k := by
+  obtain ⟨dsP, e, hall⟩ := drawn_parts arr harr
+  have hP := partsOk_partsOf h
+  have hsz : ∀ a ∈ partsOf y st, (encN y (partsOf y st).length a).length ≤ 2048 := by
+    intro a ha
+    apply h.sizes
+    rw [script_eq]
+    exact List.mem_map.mpr ⟨a, ha, rfl⟩
+  have hready : Ready ⟨0, port, false⟩
+      { pending := [], conns := [arr.map Delivery.data], faults := [], log := [.opened 0 false port false] }
+      (dsP.map (encN y (partsOf y st).length)) := ⟨rfl, by simp, by simp [e], rfl⟩
+  have := retry_drawn hP (partsOf_ne_nil y st) ⟨0, port, false⟩ retries _ dsP hready hall hsz
+  rw [allOf_partsOf] at this
+  unfold queryVars
+  rw [Q.bind_apply]
+  exact this
+
+theorem query_drawn {y : Style} {st : State} (h : Wf y st) (port retries : Nat) (arr : List Bytes)
+    (harr : ∀ d ∈ arr, d ∈ script y st) :
+    (query port retries (Net.init (scriptOf arr) [])).1 = .ok (expected st)
+    ∨ ∃ k, (query port retries (Net.init (scriptOf arr) [])).1 = .err k := by
+  rw [query_fst]
+  rcases queryVars_drawn h port retries arr harr with h1 | ⟨k, h1⟩
+  · left; rw [h1]; exact buildResponse_canon h
+  · right; exact ⟨k, by rw [h1]⟩
+
 end Gd.Gs1
